@@ -132,7 +132,8 @@ DeclWords(cfg, n, w) ==
 
 \* name part of an offered option candidate ("--k" or "--k=" or "--k=<hint>")
 CandName(c) ==
-  LET body == Drop(c, 2) e == FirstIdx(body, EQ, 1) IN IF e = 0 THEN body ELSE Take(body, e - 1)
+  IF c = <<DASH>> THEN <<DASH>>   \* the lone dash option is offered as itself
+  ELSE LET body == Drop(c, 2) e == FirstIdx(body, EQ, 1) IN IF e = 0 THEN body ELSE Take(body, e - 1)
 
 TrimSpace(c) == IF Len(c) > 0 /\ c[Len(c)] = " " THEN Take(c, Len(c) - 1) ELSE c
 
